@@ -46,6 +46,10 @@ pub enum DenomForm {
     WrongChannel,
     /// prefix of another of our channels' counterparty
     OtherChannel(u8),
+    /// the counterparty's channel id with one more digit appended (channel-1 -> channel-15)
+    NearChannel,
+    /// the counterparty's port with a suffix (transfer -> transferx)
+    NearPort,
     /// prefix applied twice
     Nested,
     /// right prefix, unknown base denom
@@ -84,7 +88,9 @@ pub enum Op {
     Timeout { pkt: u16, refund_fails: bool },
     Allow { by: Who, tok: u8, gas: Option<u64> },
     UpdateAdmin { by: Who, to: u8 },
-    Migrate { default_gas: Option<u64> },
+    /// `from`: 0 = the stored version stays the current one; 1.. = the contract was last stored by an older
+    /// release whose layout is already the current one (1.1.0, 0.16.0, 0.13.1), i.e. a real version upgrade
+    Migrate { default_gas: Option<u64>, #[serde(default)] from: u8 },
     Advance { secs: u16 },
 }
 
@@ -136,7 +142,7 @@ fn who() -> BoxedStrategy<Who> {
 }
 fn form(malicious: bool) -> BoxedStrategy<DenomForm> {
     if malicious {
-        prop_oneof![8 => Just(DenomForm::Right), 2 => Just(DenomForm::Bare), 2 => Just(DenomForm::WrongPort), 2 => Just(DenomForm::WrongChannel), 3 => (0u8..3).prop_map(DenomForm::OtherChannel), 1 => Just(DenomForm::Nested), 1 => Just(DenomForm::UnknownBase)].boxed()
+        prop_oneof![8 => Just(DenomForm::Right), 2 => Just(DenomForm::Bare), 2 => Just(DenomForm::WrongPort), 2 => Just(DenomForm::WrongChannel), 3 => (0u8..3).prop_map(DenomForm::OtherChannel), 2 => Just(DenomForm::NearChannel), 1 => Just(DenomForm::NearPort), 1 => Just(DenomForm::Nested), 1 => Just(DenomForm::UnknownBase)].boxed()
     } else {
         prop_oneof![12 => Just(DenomForm::Right), 1 => Just(DenomForm::Bare)].boxed()
     }
@@ -168,7 +174,7 @@ fn op(prop: &str, malicious: bool) -> BoxedStrategy<Op> {
     let timeout = (any::<u16>(), proptest::bool::weighted(0.25)).prop_map(|(pkt, refund_fails)| Op::Timeout { pkt, refund_fails }).boxed();
     let allow = (who(), 0u8..N_CW20 as u8, gas()).prop_map(|(by, tok, gas)| Op::Allow { by, tok, gas }).boxed();
     let upd = (who(), 0u8..3).prop_map(|(by, to)| Op::UpdateAdmin { by, to }).boxed();
-    let mig = gas().prop_map(|default_gas| Op::Migrate { default_gas }).boxed();
+    let mig = (gas(), prop_oneof![2 => Just(0u8), 3 => 1u8..4]).prop_map(|(default_gas, from)| Op::Migrate { default_gas, from }).boxed();
     let adv = (0u16..3000).prop_map(|secs| Op::Advance { secs }).boxed();
     match prop {
         "C18" => prop_oneof![2 => send_n, 8 => send_c, 2 => deliver, 7 => recv, 4 => ack, 2 => timeout, 12 => allow, 4 => upd, 3 => mig, 1 => adv].boxed(),
@@ -178,7 +184,7 @@ fn op(prop: &str, malicious: bool) -> BoxedStrategy<Op> {
 }
 
 fn legacy() -> BoxedStrategy<Legacy> {
-    (0u8..3, proptest::collection::vec((0u8..N_TOK as u8, 0u64..3000, proptest::collection::vec(1u32..500, 0..3)), 1..4), proptest::collection::vec(any::<bool>(), N_CW20), gas())
+    (0u8..3, proptest::collection::vec((0u8..N_TOK as u8, prop_oneof![2 => Just(0u64), 5 => 0u64..3000], proptest::collection::vec(1u32..500, 0..3)), 1..4), proptest::collection::vec(any::<bool>(), N_CW20), gas())
         .prop_map(|(version, tokens, listed, migrate_default_gas)| Legacy { version, tokens, listed, migrate_default_gas })
         .boxed()
 }
@@ -630,6 +636,8 @@ pub fn run_case(prop: &str, case: &Case, ctx: &mut CaseCtx) -> Result<(), Violat
                     DenomForm::WrongPort => format!("transfer2/{}/{base}", remote_chan_id(chx)),
                     DenomForm::WrongChannel => format!("{REMOTE_PORT}/channel-424242/{base}"),
                     DenomForm::OtherChannel(k) => format!("{REMOTE_PORT}/{}/{base}", remote_chan_id((chx + 1 + *k as usize % 2) % 3)),
+                    DenomForm::NearChannel => format!("{REMOTE_PORT}/{}5/{base}", remote_chan_id(chx)),
+                    DenomForm::NearPort => format!("{REMOTE_PORT}x/{}/{base}", remote_chan_id(chx)),
                     DenomForm::Nested => format!("{REMOTE_PORT}/{}/{REMOTE_PORT}/{}/{base}", remote_chan_id(chx), remote_chan_id(chx)),
                     DenomForm::UnknownBase => format!("{REMOTE_PORT}/{}/unknowndenom", remote_chan_id(chx)),
                 };
@@ -759,7 +767,13 @@ pub fn run_case(prop: &str, case: &Case, ctx: &mut CaseCtx) -> Result<(), Violat
                 let r = try_exec(&mut w.app, &who, &w.ics20.clone(), &ExecuteMsg::UpdateAdmin { admin: w.govs[*to as usize % 3].to_string() }, &[]);
                 Done::UpdateAdmin { by: who, ok: r.is_ok() }
             }
-            Op::Migrate { default_gas } => {
+            Op::Migrate { default_gas, from } => {
+                if *from % 4 != 0 {
+                    let version = ["", "1.1.0", "0.16.0", "0.13.1"][*from as usize % 4];
+                    let val = to_json_vec(&LegacyVersion { contract: "crates.io:cw20-ics20".into(), version: version.into() }).unwrap();
+                    try_sudo(&mut w.app, &w.ics20.clone(), &Shim::RawSet { key: b"contract_info".to_vec().into(), value: val.into() }).expect("rawset");
+                    pre = w.observe().map_err(qerr)?;
+                }
                 let r = try_migrate(&mut w.app, &w.wasm_admin.clone(), &w.ics20.clone(), &MigrateMsg { default_gas_limit: *default_gas }, w.code);
                 Done::Migrate { ok: r.is_ok(), default_gas: *default_gas }
             }
@@ -1275,7 +1289,7 @@ pub fn decode_case(prop: &str, u: &mut arbitrary::Unstructured) -> Case {
         let tokens = (0..n)
             .map(|_| {
                 let k = arb_below(u, 3);
-                (arb_below(u, N_TOK) as u8, u.arbitrary::<u16>().unwrap_or(0) as u64 % 3000, (0..k).map(|_| 1 + u.arbitrary::<u16>().unwrap_or(0) as u32 % 500).collect())
+                (arb_below(u, N_TOK) as u8, if arb_bool(u, 1, 3) { 0 } else { u.arbitrary::<u16>().unwrap_or(0) as u64 % 3000 }, (0..k).map(|_| 1 + u.arbitrary::<u16>().unwrap_or(0) as u32 % 500).collect())
             })
             .collect();
         Some(Legacy { version: arb_below(u, 3) as u8, tokens, listed: (0..N_CW20).map(|_| arb_bool(u, 1, 2)).collect(), migrate_default_gas: d_gas(u) })
@@ -1325,8 +1339,8 @@ pub fn decode_case(prop: &str, u: &mut arbitrary::Unstructured) -> Case {
                         5 => DenomForm::Bare,
                         6 => DenomForm::WrongPort,
                         7 => DenomForm::WrongChannel,
-                        8 => DenomForm::OtherChannel(arb_below(u, 3) as u8),
-                        _ => if arb_bool(u, 1, 2) { DenomForm::Nested } else { DenomForm::UnknownBase },
+                        8 => if arb_bool(u, 1, 2) { DenomForm::OtherChannel(arb_below(u, 3) as u8) } else { DenomForm::NearChannel },
+                        _ => [DenomForm::Nested, DenomForm::UnknownBase, DenomForm::NearPort][arb_below(u, 3)],
                     }
                 } else if arb_bool(u, 1, 12) {
                     DenomForm::Bare
@@ -1349,7 +1363,7 @@ pub fn decode_case(prop: &str, u: &mut arbitrary::Unstructured) -> Case {
             10 | 11 => Op::Ack { pkt: u.arbitrary().unwrap_or(0), ok: arb_bool(u, 3, 5), refund_fails: arb_bool(u, 1, 4) },
             12 => Op::Timeout { pkt: u.arbitrary().unwrap_or(0), refund_fails: arb_bool(u, 1, 4) },
             13 => Op::Allow { by: d_who(u), tok: arb_below(u, N_CW20) as u8, gas: d_gas(u) },
-            14 => if arb_bool(u, 1, 2) { Op::UpdateAdmin { by: d_who(u), to: arb_below(u, 3) as u8 } } else { Op::Migrate { default_gas: d_gas(u) } },
+            14 => if arb_bool(u, 1, 2) { Op::UpdateAdmin { by: d_who(u), to: arb_below(u, 3) as u8 } } else { Op::Migrate { default_gas: d_gas(u), from: arb_below(u, 4) as u8 } },
             _ => Op::Advance { secs: u.arbitrary::<u16>().unwrap_or(0) % 3000 },
         };
         ops.push(op);
